@@ -15,7 +15,7 @@
 //! Ops (model `Altrios/Par.lean`): `ser_run` (exact prediction of the serial loop), `par_check` (every
 //! observation of a real parallel walk must be explainable by an admissible schedule), `cars_total`,
 //! `find_key` (the two folds over std hash maps, on the implementation's own iteration order).
-use crate::dispgen::gen_scenario;
+use crate::dispgen::{gen_scenario, gen_train, location};
 use crate::netgen::*;
 use crate::prng::Rng;
 use crate::proto::*;
@@ -436,6 +436,26 @@ fn build_scenarios(r: &mut Rng, tier: &str) -> Vec<Scen> {
     }
     for _ in 0..(if thorough { 30 } else { 10 }) { let mut rr = r.fork(); v.push(gen_validate(&mut rr)); }
     v.push(Scen::Taconite);
+    // appended last (the random streams of the scenarios above stay those of earlier runs): trains with SEVERAL origin
+    // links that all reach the destination — the two parallel tracks of a siding. `get_link_idx_options` and the branching
+    // simulation of `make_est_times` build the estimated-time graph in the order of the origins: any hash-ordered
+    // container on that path shows up as a node numbering that differs between processes.
+    for _ in 0..(if thorough { 8 } else { 3 }) {
+        let mut rr = r.fork();
+        let mut sc = gen_scenario(&mut rr, 2);
+        let mut tries = 0;
+        while sc.dn.sidings.is_empty() && tries < 20 { sc = gen_scenario(&mut rr, 2); tries += 1; }
+        if let Some(&(k, sf, srv)) = sc.dn.sidings.first() {
+            let n_main = sc.dn.main_fwd.len();
+            let east = sc.dirs[0];
+            let (origs, d) = if east { (vec![location("O", sc.dn.main_fwd[k]), location("O", sf)], sc.dn.main_fwd[n_main - 1]) }
+                else { (vec![location("O", sc.dn.main_rev[k]), location("O", srv)], sc.dn.main_rev[0]) };
+            let depart = if rr.chance(0.5) { 0.0 } else { rr.range(1, 40) as f64 * 60.0 };
+            sc.trains[0] = gen_train(&mut rr, "T1", origs, vec![location("D", d)], depart);
+            sc.trains.truncate(1);
+        }
+        v.push(Scen::Meet { net: sc.dn.net, trains: sc.trains });
+    }
     v
 }
 
